@@ -454,8 +454,18 @@ func (r *ltsRun) cleanup() {
 	}
 }
 
+// ltsStuck counts scripts that hung; once a run has produced enough of them the families stop early (each hang costs
+// seconds, and the first ones are already reported)
+var ltsStuck int
+
+func ltsAbort() bool { return ltsStuck > 8 }
+
 func ltsPlay(script string) string {
-	return newLtsRun().play(strings.Fields(script))
+	obs := newLtsRun().play(strings.Fields(script))
+	if strings.HasPrefix(obs, "stuck@") {
+		ltsStuck++
+	}
+	return obs
 }
 
 func sortedKeys(m map[int]*ltsCaller) []int {
